@@ -590,7 +590,7 @@ func c38RandMutant(rng *rand.Rand, rt *c38Route, valid c38Req, st *c38State) c38
 						b = []byte{' '}
 					}
 				case 2:
-					b = append(b[:p:p], append([]byte{`{}[]":,0-e.`[rng.Intn(12)]}, b[p:]...)...)
+					b = append(b[:p:p], append([]byte{`{}[]":,0-e.`[rng.Intn(11)]}, b[p:]...)...)
 				default:
 					b = b[:p+1]
 				}
